@@ -94,6 +94,17 @@ def _laws(case, p, tags, vlevel, l):
             got = (lo.length_on_reference(), lo.length_on_query(), co.length_on_reference(), co.length_on_query())
             if got != (ref, qry, qry, ref):
                 raise Violation("lengths", "%r: (ref,qry,c.ref,c.qry)=%s expected %s" % (text, got, (ref, qry, qry, ref)))
+        # the canonical one of the two forms: the link itself or its complement, the same one from either form
+        try:
+            k1, k2 = l.canonicize(), c.canonicize()
+            canon_ok = k1.is_canonical() and k2.is_canonical()
+        except Exception as e:
+            raise Violation("canonicize-raised", "canonicize() of %r (or of its complement %r) raised %s: %s" % (text, str(c), type(e).__name__, str(e)[:200]), type(e).__name__)
+        if not canon_ok or canon_l(str(k1)) not in (canon_l(text), want_c) or (
+                canon_l(str(k1)) != canon_l(str(k2)) and not (l.is_canonical() and c.is_canonical())):
+            raise Violation("canonicize", "canonicize() of %r gives %r, of its complement %r" % (text, str(k1), str(k2)))
+        if str(l) != before:
+            raise Violation("receiver-changed", "%r became %r after canonicize()" % (before, str(l)))
         # documented with Link.__hash__: a link and its complement have the same hash
         if hash(l) != hash(c) or hash(l) != hash(l):
             raise Violation("hash", "hash of %r and of its complement differ (or are not repeatable)" % text)
